@@ -9,6 +9,10 @@ FUNCTIONS = ["Traph.add_page", "Traph.add_pages", "Traph.add_links", "Traph.inde
              "Traph.count_pages", "Traph.count_crawled_pages"]
 
 
+# payload lengths: stem = payload + '|' (73 -> exactly one block, 74 -> one tail byte, 147 -> exactly two blocks ...)
+LONG = [[[73], [73, 1], [1]], [[74], [74, 1], [1, 1]], [[1, 147], [1, 100], [2]], [[148], [148, 1], [221]], [[100, 1], [100, 2], [1]]]
+
+
 def levels(tier):
     full = ["page", "pages", "links", "batch", "we", "rule"]
     writes = ["page", "links", "batch"]
@@ -17,6 +21,8 @@ def levels(tier):
             {"name": "n1-full", "shapes": [[1, 2, 2]], "L": 1, "n": 1, "alphabet": full},
             {"name": "n2-full", "shapes": [[1, 2, 2]], "L": 1, "n": 2, "alphabet": full,
              "links_batch": 1, "batch_targets": 1, "pages_batch": 2},
+            {"name": "long-n2", "pools": LONG[:3], "sparse": True, "n": 2, "alphabet": ["page", "links", "batch"],
+             "links_batch": 1, "batch_targets": 1},
         ]
     return [
         {"name": "n1-full", "shapes": [[1, 2, 2], [2, 2, 3]], "L": 1, "n": 1, "alphabet": full},
@@ -25,11 +31,14 @@ def levels(tier):
          "links_batch": 1, "batch_targets": 1},
         {"name": "n2-L2", "shapes": [[1, 2, 2]], "L": 2, "n": 2, "alphabet": full,
          "links_batch": 1, "batch_targets": 1},
+        {"name": "long-n2", "pools": LONG, "sparse": True, "n": 2, "alphabet": full, "links_batch": 2, "batch_targets": 2},
+        {"name": "long-n3", "pools": LONG[:3], "sparse": True, "n": 3, "alphabet": ["page", "links"], "links_batch": 1},
         {"name": "n3-full", "shapes": [[1, 2, 2]], "L": 1, "n": 3, "alphabet": full,
          "links_batch": 1, "batch_targets": 1},
     ]
 
 
+OUTSIDE = ["more than 3 pool LRUs / 3 write requests", "long stems (74..222 bytes) have symbolic bytes only next to the block boundaries and at both ends (sparse)"]
 REQUIRED = ["reach:op:page", "reach:op:links", "reach:op:batch", "pages:count", "report:nb_created_pages"]
 
 
@@ -54,8 +63,12 @@ def observe_pages(E, t, ref, tag):
 
 def harness(E):
     P = E.params
-    shape = P["shapes"][E.choose("shape", len(P["shapes"]))]
-    pool = plain_pool(E, shape, P.get("L", 1))
+    if "pools" in P:
+        L = P["pools"][E.choose("pool", len(P["pools"]))]
+        pool = plain_pool(E, [len(x) for x in L], L, sparse=P.get("sparse", False))
+    else:
+        shape = P["shapes"][E.choose("shape", len(P["shapes"]))]
+        pool = plain_pool(E, shape, P.get("L", 1))
     t = E.Traph(folder=None, default_webentity_creation_rule=NEVER, webentity_creation_rules={})
     ref = Ref()
     h = History(E, t, ref, pool, P["alphabet"], P)
